@@ -10,17 +10,20 @@ from . import protoxml, env
 
 SERVER_BASE = 0xff000000
 _P = None
+_W = None
 _NEWID_EVENT_IFACES = None
+_ENUM_MSGS = None
 
 
 def protocols():
     """interface name -> one maximal-version description (oracle-side reader)"""
-    global _P, _NEWID_EVENT_IFACES
+    global _P, _W, _NEWID_EVENT_IFACES, _ENUM_MSGS
     if _P is None:
         d = protoxml.read_all(os.path.join(env.REPO, 'resources', 'protocols'))
         # per interface one maximal-version description, restricted to the messages whose structure all
         # maximal-version descriptions agree on (so the code under test and the generator cannot
         # legitimately disagree about argument lists; C07 handles ties and enum tags)
+        _W = protoxml.winners(d)
         _P = {}
         for n, (pi, msgs) in protoxml.structural(d).items():
             pi.msgs = msgs
@@ -29,7 +32,19 @@ def protocols():
             n for n, pi in _P.items()
             if any(m.is_event and any(a.type == 'new_id' and a.interface for a in m.args) and
                    all(a.type != 'object' or a.allow_null for a in m.args) for m in pi.msgs))
+        _ENUM_MSGS = {}
+        for n, pi in _P.items():
+            ms = [m for m in pi.msgs if any(a.enum and a.type in ('int', 'uint') for a in m.args)
+                  and all(a.type != 'object' or a.allow_null for a in m.args)
+                  and not (n == 'wl_registry' and m.name == 'bind')]
+            if ms:
+                _ENUM_MSGS[n] = ms
     return _P
+
+
+def winners_map():
+    protocols()
+    return _W
 
 
 CORE = ['wl_registry', 'wl_callback', 'wl_compositor', 'wl_shm', 'wl_shm_pool', 'wl_buffer', 'wl_surface', 'wl_seat',
@@ -94,8 +109,21 @@ class ConnGen:
     def iface_of(self, oid):
         return self.live.get(oid) or self.dead.get(oid)
 
-    def arg(self, d, pa, is_event, pending):
+    def arg(self, d, pa, is_event, pending, iface=None):
         t = pa.type
+        if t in ('int', 'uint') and pa.enum and iface is not None and d.chance(0.85):
+            # enum-typed argument: entry values, unions of two entries, occasionally a value outside
+            ecs = protoxml.enum_candidates(protocols()[iface], pa.enum, _W) if iface in protocols() else []
+            vals = [v for e in ecs[:1] for _, v in e.entries]
+            if vals:
+                v = d.choice(vals)
+                if ecs[0].bitfield and d.chance(0.5):
+                    v |= d.choice(vals)
+                    if d.chance(0.3):
+                        v |= d.choice(vals)
+                if d.chance(0.1):
+                    v = max(vals) + 1
+                return [t, v & 0xffffffff if t == 'uint' else v]
         if t == 'int':
             return ['int', d.choice(I32) if d.chance(0.7) else d.int(-2**31, 2**31 - 1)]
         if t == 'uint':
@@ -131,7 +159,7 @@ class ConnGen:
         pending, args = [], []
         save = (dict(self.live), dict(self.dead), self.next_client, self.next_server, dict(self.gens))
         for pa in pm.args:
-            a = self.arg(d, pa, pm.is_event, pending)
+            a = self.arg(d, pa, pm.is_event, pending, iface)
             if a is None:
                 self.live, self.dead, self.next_client, self.next_server, self.gens = save
                 return None
@@ -231,6 +259,34 @@ class ConnGen:
         oid, iface, pm = d.choice(cands)
         return self._protocol_message(d, oid, iface, pm)
 
+    def step_enum_message(self, d):
+        """a message with an enum-typed argument (labels, bitfield unions): dedicated class"""
+        protocols()
+        cands = [(oid, iface) for oid, iface in sorted(self.live.items()) if iface in _ENUM_MSGS]
+        if not cands or d.chance(0.15):
+            return self.step_bind(d, iface=d.choice(sorted(_ENUM_MSGS)) if d.chance(0.4) else d.choice(
+                [i for i in ('wl_seat', 'wl_output', 'wl_shm', 'zwlr_layer_surface_v1', 'wl_data_offer', 'wl_data_source', 'wl_pointer',
+                             'wl_keyboard', 'wl_surface', 'xdg_positioner', 'wl_shell_surface', 'zwp_text_input_v1') if i in _ENUM_MSGS]))
+        oid, iface = d.choice(cands)
+        return self._protocol_message(d, oid, iface, d.choice(_ENUM_MSGS[iface]))
+
+    def step_title(self, d):
+        """messages the tool inspects for connection titles (set_app_id / set_title / get_layer_surface), with every string"""
+        P = protocols()
+        tl = self.pick_obj(d, 'xdg_toplevel')
+        ls = self.pick_obj(d, 'zwlr_layer_shell_v1')
+        sf = self.pick_obj(d, 'wl_surface')
+        if ls is not None and sf is not None and d.chance(0.3) and 'zwlr_layer_shell_v1' in P:
+            pm = P['zwlr_layer_shell_v1'].msg('get_layer_surface')
+            if pm is not None:
+                m = self._protocol_message(d, ls, 'zwlr_layer_shell_v1', pm)
+                if m is not None:
+                    return m
+        if tl is None:
+            return self.step_bind(d, iface=d.choice(['xdg_toplevel', 'xdg_toplevel', 'zwlr_layer_shell_v1', 'wl_surface']))
+        name = d.choice(['set_title', 'set_app_id'])
+        return dict(sent=self.sent(False), iface='xdg_toplevel', id=tl, name=name, args=[['str', d.choice(STRS)]])
+
     def step_deep_reuse(self, d):
         """delete and re-create the same client id (towards incarnation letters beyond z)"""
         pool = sorted(i for i in self.dead if i < SERVER_BASE and i not in self.live)
@@ -250,7 +306,7 @@ class ConnGen:
                 m = self.step_first(d)
                 self.nmsg += 1
                 return m
-        w = self.profile.get('weights') or dict(delete=14, bind=12, message=50, server_event=10, deep=0, sync=4)
+        w = self.profile.get('weights') or dict(delete=14, bind=12, message=40, server_event=10, deep=0, sync=4, enum=8, title=6)
         if kind is None:
             kind = d.weighted([(v, k) for k, v in sorted(w.items()) if v > 0])
         m = None
@@ -258,6 +314,8 @@ class ConnGen:
         elif kind == 'bind': m = self.step_bind(d)
         elif kind == 'server_event': m = self.step_server_event(d)
         elif kind == 'deep': m = self.step_deep_reuse(d)
+        elif kind == 'enum': m = self.step_enum_message(d)
+        elif kind == 'title': m = self.step_title(d)
         elif kind == 'sync': m = self.step_sync(d)
         elif kind == 'first' and 2 not in self.live and 2 not in self.dead: m = self.step_first(d)
         if m is None:
